@@ -383,18 +383,31 @@ class OopStateEngine(EngineBase):
     def _install_flag_probe(self):
         """Count which change-flag combinations reach the tides cascade (a reach measure, never an oracle)."""
         from TidalPy.tides.methods.base import TidesBase
-        if getattr(TidesBase.orbit_spin_changed, '_verif_probe', False):
+        import inspect
+        original = getattr(TidesBase, 'orbit_spin_changed', None)
+        if original is None or getattr(original, '_verif_probe', False):
             return
-        original = TidesBase.orbit_spin_changed
         paths = OopStateEngine._flag_paths
+        try:
+            sig = inspect.signature(original)
+        except (TypeError, ValueError):
+            return
 
-        def probe(self_, eccentricity_change=True, obliquity_change=True, orbital_freq_changed=True, spin_freq_changed=True,
-                  *a, **k):
-            paths.add('%s:e%d o%d n%d s%d' % (type(self_).__name__, bool(eccentricity_change), bool(obliquity_change),
-                                            bool(orbital_freq_changed), bool(spin_freq_changed)))
-            return original(self_, eccentricity_change, obliquity_change, orbital_freq_changed, spin_freq_changed, *a, **k)
+        def probe(self_, *a, **k):
+            # signature-agnostic: whatever the flags are called in this version of the code, record their truth values in
+            # declaration order; the call itself is forwarded untouched
+            try:
+                bound = sig.bind(self_, *a, **k)
+                bound.apply_defaults()
+                flags = [v for n, v in list(bound.arguments.items())[1:] if isinstance(v, (bool, int))][:6]
+                paths.add('%s:%s' % (type(self_).__name__, ''.join('1' if f else '0' for f in flags)))
+            except Exception:
+                pass
+            return original(self_, *a, **k)
         probe._verif_probe = True
         probe.__wrapped__ = original
+        probe.__name__ = getattr(original, '__name__', 'orbit_spin_changed')
+        probe.__doc__ = original.__doc__
         TidesBase.orbit_spin_changed = probe
 
     def pre_checks(self, tier, base_seed, workers):
